@@ -56,7 +56,11 @@ pub fn maybe_retarget(rng: &mut Rng, sw: &Swarm, a: &mut Ast, one_in: u64) {
     if cands.is_empty() {
         return;
     }
-    let t = *rng.pick(&cands);
+    let mut t = *rng.pick(&cands);
+    if sw.max_frame >= 2_097_152 && rng.chance(1, 60) {
+        // a size that is not a boundary of the wire format at all: 2 MiB .. 40 MiB
+        t = rng.urange(2_097_153, 40_000_000);
+    }
     gen::retarget(rng, a, cur, t);
 }
 
@@ -272,6 +276,7 @@ pub fn hostile_case(rng: &mut Rng, tier: crate::scn::Tier, idx: u64, prop: &str,
                 rl_width: if rng.chance(1, 4) { rng.urange(2, 4) as u8 } else { 0 },
                 plen_width: if rng.chance(1, 6) { rng.urange(2, 4) as u8 } else { 0 },
                 stray_will_retain: rng.chance(1, 8),
+                pvar_width: if rng.chance(1, 6) { rng.urange(2, 4) as u8 } else { 0 },
             };
             if mode == 1 {
                 let e = refcodec::ref_encode(&c.packets[0], sw.fam, &c.style);
